@@ -132,6 +132,9 @@ def drvStep (judge : Judge) (s : St) (n : Nat) (ln : Line) : St × List String :
     let model := if o.res == .diverge then head else head ++ dumpSt s'
     let obs := parseObs ln.outs
     let fails := (judge s op obs).map fun (c, d) => specfail n c d
-    (s', diff n ln model ++ fails ++ covOf s op o)
+    let dl := diff n ln model
+    -- after a DIFF continue from the IMPLEMENTATION's state, so that one divergence is reported once
+    let next := if !dl.isEmpty && obs.complete then obs.post else s'
+    (next, dl ++ fails ++ covOf s op o)
 
 end SwV.Spec.C18Run
